@@ -6,9 +6,9 @@ from sa.registry import PROPS
 
 BASE = "cd /repo && /venv/bin/python -m pytest -ra -q -p no:cacheprovider --timeout=900 --continue-on-collection-errors"
 TECH = {
- 'C01': 'boolean-mask truth tables + layout typing over the AST', 'C02': 'boolean-mask truth tables + layout typing + inverse-pair table',
- 'C03': 'layout typing + sibling isomorphism + table agreement', 'C04': 'variance (vector/covector) typing + sibling agreement of backward bodies',
- 'C05': 'def-use / table agreement over resolved callees', 'C06': 'alias/effect analysis with interprocedural summaries; path-based patch pairing',
+ 'C01': 'boolean-mask truth tables + layout typing over the AST; abstract interpretation of the branch formulas in a truncated Laurent-series domain (regime continuity)', 'C02': 'boolean-mask truth tables + layout typing + inverse-pair table; truncated Laurent-series abstract interpretation of the branch formulas',
+ 'C03': 'layout typing + sibling isomorphism + table agreement', 'C04': 'variance (vector/covector) typing + sibling agreement of backward bodies; block-structure (zero-row) analysis of the action Jacobians',
+ 'C05': 'def-use / table agreement over resolved callees; truncated-series abstract interpretation of the Jacobian coefficients', 'C06': 'alias/effect analysis with interprocedural summaries; path-based patch pairing',
  'C07': 'provenance and sign-parity dataflow; path ordering', 'C08': 'typestate over enumerated paths of step()',
  'C09': 'guard-dominance on paths; nominal dimension typing', 'C10': 'error-discipline dataflow (status must reach a raising check)',
  'C11': 'mask truth tables; keyword-forwarding and raise-path checks', 'C12': 'value-kind inference; operand-role tables',
@@ -72,7 +72,7 @@ def main():
         'engines': [{'name': 'sa', 'path': 'sa/', 'serves_properties': built,
                      'kind_free_text': 'repository-specific static analysis over the Python AST: repo model + call resolution (core), structured path '
                                        'enumeration (paths), single-assignment inlining / provenance / parity (expr), alias-effect summaries (effects), '
-                                       'nominal dimension typing (shapes), boolean-mask algebra (masks), value kinds (kinds)'}],
+                                       'nominal dimension typing (shapes), boolean-mask algebra (masks), value kinds (kinds), truncated Laurent-series domain for coefficient formulas (series, limits)'}],
         'checks': checks,
         'not_applicable': sorted(na, key=lambda x: x['property_id']),
         'notes': 'All checks are static (family: static analysis). Genuine defects found on the pinned tree were repaired by fix: commits in /repo; '
